@@ -751,7 +751,17 @@ def run(ctx):
             ctx.count("fuzz:token-mutant")
         elif r < 0.87:
             t, _, _ = keep[rng.randrange(len(keep))]
-            toks = [x.string + ("\x00" if x.functor else "") for x in P._tokenize(str(t))]
+            try:
+                toks = [x.string + ("\x00" if x.functor else "") for x in P._tokenize(str(t))]
+            except ProbLogError:
+                continue
+            except Exception as e:  # the tokenizer crashed on a printed term: an escape like any other
+                f, fn, line = U.site_of(e)
+                key = "%s|%s:%s: %s" % (type(e).__name__, f, fn, line)
+                ctx.count("fuzz-outcome:ESCAPE " + type(e).__name__)
+                if key not in escapes or len(str(t)) < len(escapes[key]):
+                    escapes[key] = str(t)
+                continue
             s = join_tokens(mutate(rng, toks, rng.choice(corpus)[1])) + " ."
             ctx.count("fuzz:printed-ast-mutant")
         elif r < 0.95:
